@@ -113,6 +113,9 @@ pub fn deviations() -> Vec<Dev> {
     codes.push("0.000".to_string());
     codes.push("yyyy-mm-dd".to_string());
     codes.push("General".to_string());
+    // custom codes that differ only in letter case are different formats
+    codes.push("0.0\" kg\"".to_string());
+    codes.push("0.0\" KG\"".to_string());
     for c in codes {
         let cc = c.clone();
         v.push(dev("num_fmt", format!("num_fmt={}", c), move |s| s.num_fmt = cc.clone()));
@@ -156,13 +159,16 @@ impl Target {
     }
 }
 
-pub const TARGET_PAIRS: [(&str, Target, Target); 6] = [
+pub const TARGET_PAIRS: [(&str, Target, Target); 8] = [
     ("cell,cell", Target::Cell(1, 1), Target::Cell(2, 2)),
     ("cell,row", Target::Cell(1, 1), Target::Row(5)),
     ("cell,column", Target::Cell(1, 1), Target::Col(5)),
     ("row,column", Target::Row(5), Target::Col(7)),
     ("cell-in-row,row", Target::Cell(5, 1), Target::Row(5)),
     ("cell-in-column,column", Target::Cell(1, 5), Target::Col(5)),
+    // two rows / two columns styled in descending order (descriptors are stored in the order they were created)
+    ("row-hi,row-lo", Target::Row(10), Target::Row(5)),
+    ("column-hi,column-lo", Target::Col(10), Target::Col(5)),
 ];
 
 fn includes_all() -> StyleIncludes {
@@ -364,6 +370,17 @@ fn seq_case(w: &mut Worker, styles: &[Style], pair: usize, named: bool) -> Vec<(
             let rel = if *tt == t { "same" } else { "other" };
             let head = format!("seq{} pair={} wrote={} target={}", tag, pname, t.kind(), rel);
             check_read(w, *tt, exp, &head, &mut out);
+            if pname == "row-hi,row-lo" || pname == "column-hi,column-lo" {
+                // and through a cell of that row / column that was never written
+                let via = match *tt {
+                    Target::Row(r) => Some(Target::Cell(r, 20)),
+                    Target::Col(c) => Some(Target::Cell(20, c)),
+                    _ => None,
+                };
+                if let Some(v) = via {
+                    check_read(w, v, exp, &format!("{} via=absent-cell", head), &mut out);
+                }
+            }
         }
         if !out.is_empty() {
             return out;
@@ -447,6 +464,25 @@ fn unit(devs: &[Dev], d1: usize, thorough: bool) -> UnitOut {
             continue;
         }
         tuples.push(vec![d1, d2]);
+    }
+    // two different number formats one after the other (same attribute, so not a "compatible" pair above): every ordered pair
+    let mut fmt_tuples: Vec<(usize, usize)> = vec![];
+    if devs[d1].key == "num_fmt" {
+        for d2 in 0..n {
+            if d2 != d1 && devs[d2].key == "num_fmt" {
+                fmt_tuples.push((d1, d2));
+            }
+        }
+    }
+    for (a, b) in &fmt_tuples {
+        let styles = vec![build(devs, &[*a]), build(devs, &[*b])];
+        for pair in [0usize, 1, 3] {
+            out.cases += 1;
+            out.assignments += 2;
+            let f = seq_case(&mut w, &styles, pair, false);
+            note(&mut out, f, || json!({"kind": "sequence", "form": "two-number-formats", "deviations": [devs[*a].name.clone(), devs[*b].name.clone()],
+                "styles": styles.clone(), "pair": pair, "named": false}));
+        }
     }
     let run_tuple = |out: &mut UnitOut, w: &mut Worker, t: &[usize]| {
         for (fname, styles) in forms(devs, t) {
